@@ -380,6 +380,7 @@ RULES = [
 def rule_inventory(ctx):
     from . import inventory
     inventory.check(ctx, ['file:st_executor', 'file:mt_executor', 'file:injector'])
+    inventory.check_narrowing(ctx)
 
 
 RULES.append(("C13.g", "state-mutation inventory: no new site that changes the content of the state this property rests on", rule_inventory))
